@@ -311,9 +311,12 @@ order = list(range(len(plan["workloads"])))
 if sys.argv[3] == "rev":
     order.reverse()
 out = {}
+from simkit import refdec
 for i in order:
     data, _ = c12.solo(plan["workloads"][i])
-    out[i] = hashlib.sha256(data).hexdigest()
+    r = refdec.decode_stream(data, True, strict=False)
+    bag = hashlib.sha256(repr(sorted(r.items, key=repr)).encode("utf-8", "backslashreplace")).hexdigest() if r.ok else "invalid"
+    out[i] = hashlib.sha256(data).hexdigest() + ":" + bag
 print(json.dumps(out))
 """
 
@@ -323,7 +326,14 @@ def subproc_side(plan, sim):
     import tempfile
     here = os.path.dirname(os.path.dirname(os.path.abspath(__file__)))
     wl = plan["workloads"]
-    mine = {str(i): hashlib.sha256(solo(w)[0]).hexdigest() for i, w in enumerate(wl)}
+    from simkit import refdec
+    mine = {}
+    for i, w in enumerate(wl):
+        data = solo(w)[0]
+        r = refdec.decode_stream(data, True, strict=False)
+        bag = hashlib.sha256(repr(sorted(r.items, key=repr)).encode("utf-8", "backslashreplace")).hexdigest() \
+            if r.ok else "invalid"
+        mine[str(i)] = hashlib.sha256(data).hexdigest() + ":" + bag
     tmp = tempfile.mkdtemp(prefix="c12-")
     pf = os.path.join(tmp, "plan.json")
     with open(pf, "w") as fh:
@@ -350,8 +360,10 @@ def subproc_side(plan, sim):
         digests[("inproc", "-")] = mine[str(i)]
         if len(set(digests.values())) != 1:
             cfg = w["cfg"]
+            same_bag = len({d.split(":")[1] for d in digests.values()}) == 1
             v.append({"clause": "C12.bytes_depend_on_process", "sig": {"integration": cfg["integration"],
-                                                                      "physical": cfg["physical"]},
+                                                                      "physical": cfg["physical"],
+                                                                      "same_statements": same_bag},
                       "msg": f"workload {i} ({cfg['integration']} {cfg['physical']} {cfg['entry']}): output digests by "
                              f"(PYTHONHASHSEED, history order): { {f'{k[0]}/{k[1]}': d[:10] for k, d in digests.items()} }"})
     uniq = {}
